@@ -96,7 +96,7 @@ REPLAY = {'selfrepl': replay}
 
 def run(rec, tier, seed):
     rec.rule = ("self-replacement of 7 pattern shapes in 4 cells on planted structures (positions, elements, charges, groups, count, term tuple "
-                "sets unchanged); element substitutions A->B->A (single-atom, element-swap, collinear) restore the multiset of (element, position "
+                "sets unchanged); substitutions A->B->A (single-atom, element-swap, collinear, element swap with a same-element atom displaced by 0.08 A) restore the multiset of (element, position "
                 "mod lattice) and a second search for A finds none; thorough adds UiO-66 linker self-replacement. distinct = specs")
     pairs = ['identical', 'swap-element', 'single-swap', 'collinear-swap', 'shrink-shared', 'sym-grow', 'grow-shared']
     for pi, pair in enumerate(pairs):
@@ -108,7 +108,7 @@ def run(rec, tier, seed):
             rec.case(repr(sorted(spec.items())), group='self', sample=spec if len(rec.samples) < 2 else None)
             if msg:
                 rec.fail('selfrepl', 'self-replacement', "%s on %r" % (msg, spec), spec, 'C08/self-replacement')
-    for pi, pair in enumerate(['single-swap', 'swap-element', 'collinear-swap']):
+    for pi, pair in enumerate(['single-swap', 'swap-element', 'collinear-swap', 'nudge-swap']):
         for ci, cell in enumerate(geo.CELLS):
             spec = dict(cell=cell, pair=pair, copies=3, seed=seed * 10 + 50 + pi + ci, aba=True)
             msg = check_aba(spec)
